@@ -161,6 +161,9 @@ class YowNoiseLayer(YowLayer):
         :rtype:
         """
         data = bytes(data) if type(data) is not bytes else data
+        if len(data) + 16 >= 16777216:
+            # refuse before encrypting: a frame the segments layer cannot write must not consume a cipher counter
+            raise ValueError("data too large to write; length=%d" % len(data))
         self._wa_noiseprotocol.send(data)
 
     def _flush_incoming_buffer(self):
